@@ -214,6 +214,8 @@ struct SessionState {
     deferred_read: DeferredRead,
     last_recorded_time: Option<tokio::time::Instant>,
     last_broadcast_type: Option<BroadcastConfirmMode>,
+    /// has a response carried the indication of the last broadcast?
+    last_broadcast_reported: bool,
 }
 
 impl SessionState {
@@ -228,6 +230,17 @@ impl SessionState {
             deferred_read: DeferredRead::new(max_read_headers),
             last_recorded_time: None,
             last_broadcast_type: None,
+            last_broadcast_reported: false,
+        }
+    }
+
+    /// A confirmation was received. It can only acknowledge a broadcast indication that
+    /// some response has already carried: a broadcast received while waiting for the
+    /// confirmation of an earlier response has not been reported to the master yet.
+    fn on_confirm_received(&mut self) {
+        if self.last_broadcast_reported {
+            self.last_broadcast_type = None;
+            self.last_broadcast_reported = false;
         }
     }
 
@@ -765,7 +778,7 @@ impl OutstationSession {
         match self.classify(info, request) {
             FragmentType::UnsolicitedConfirm(seq) => {
                 if seq == uns_ecsn {
-                    self.state.last_broadcast_type = None;
+                    self.state.on_confirm_received();
                     self.info.unsolicited_confirmed(seq);
                     Ok(UnsolicitedWaitResult::Complete(
                         UnsolicitedResult::Confirmed,
@@ -780,7 +793,7 @@ impl OutstationSession {
             }
             FragmentType::SolicitedConfirm(_) => {
                 if let Some(BroadcastConfirmMode::Mandatory) = self.state.last_broadcast_type {
-                    self.state.last_broadcast_type = None
+                    self.state.on_confirm_received();
                 } else {
                     tracing::warn!("ignoring solicited confirm");
                 }
@@ -1931,6 +1944,9 @@ impl OutstationSession {
 
             if mode != BroadcastConfirmMode::Mandatory {
                 self.state.last_broadcast_type = None;
+                self.state.last_broadcast_reported = false;
+            } else {
+                self.state.last_broadcast_reported = true;
             }
         }
 
@@ -1948,6 +1964,7 @@ impl OutstationSession {
         request: Request<'_>,
     ) {
         self.state.last_broadcast_type = Some(mode);
+        self.state.last_broadcast_reported = false;
         let action = self
             .process_broadcast_get_action(frame_id, database, request)
             .await;
@@ -2056,7 +2073,7 @@ impl OutstationSession {
                 .await?
             {
                 Confirm::Yes(respond_to) => {
-                    self.state.last_broadcast_type = None;
+                    self.state.on_confirm_received();
 
                     database
                         .clear_written_events(self.application.as_mut())
